@@ -201,6 +201,86 @@ Example C15_ex_cluster :
     lookup_dc s (1, 1)%N 5 1 = Some [(ex_n1', 0%N)] /\ lookup_dc s (1, 1)%N 5 0 = Some [].
 Proof. split; [reflexivity|]. eexists. split; [vm_compute; reflexivity|]. repeat split; vm_compute; reflexivity. Qed.
 
+(* anchors of the DEFINITIONS the theorems and the driver rely on: each specification function and
+   each boolean property predicate evaluated on concrete inputs, accepting AND rejecting *)
+Example C15_ex_ranges_okb :
+  ranges_okb [(-5, -1); (0, 0); (1, 2 ^ 63 - 1)] = true /\
+  ranges_okb [(0, 5); (5, 9)] = false /\                 (* overlapping in one token *)
+  ranges_okb [(3, 4); (0, 1)] = false /\                 (* not sorted *)
+  ranges_okb [(2, 1)] = false /\                         (* empty range *)
+  ranges_okb [(0, 2 ^ 63)] = false /\ ranges_okb [(- 2 ^ 63 - 1, 0)] = false.   (* outside i64 *)
+Proof. repeat split; vm_compute; reflexivity. Qed.
+Example C15_ex_tablets_inv_rejects :
+  let t f l := mkTablet f l (mkReps [] []) None in
+  tablets_inv [t 0 4; t 5 9] /\ ~ tablets_inv [t 0 5; t 5 9] /\ ~ tablets_inv [t 5 9; t 0 4] /\ ~ tablets_inv [t 2 1].
+Proof.
+  cbn zeta. split; [|split; [|split]].
+  - split.
+    + intros t [<-|[<-|[]]]; vm_compute; intuition discriminate.
+    + intros [|[|i]] [|[|[|j]]] x y Hij Hi Hj; try lia; cbn in Hi, Hj; try discriminate;
+        try (destruct i; discriminate); try (destruct j; discriminate).
+      injection Hi as <-. injection Hj as <-. cbn. lia.
+  - intros [_ H]. specialize (H 0%nat 1%nat _ _ (Nat.lt_0_succ 0) eq_refl eq_refl). cbn in H. lia.
+  - intros [_ H]. specialize (H 0%nat 1%nat _ _ (Nat.lt_0_succ 0) eq_refl eq_refl). cbn in H. lia.
+  - intros [H _]. specialize (H _ (or_introl eq_refl)). cbn in H. lia.
+Qed.
+Example C15_ex_spec_payload_ok :
+  spec_payload_ok 0 1 [(7%N, 0)] = true /\ spec_payload_ok 1 1 [] = false /\ spec_payload_ok 2 1 [] = false /\
+  spec_payload_ok 0 1 [(7%N, -1)] = false.
+Proof. repeat split; vm_compute; reflexivity. Qed.
+Example C15_ex_spec_step :
+  let e := mkEntry 1 10 [(ex_n1, 0%N)] None in
+  (* a covering payload wins; a payload for another table / a refused payload changes nothing;
+     an overlapping non-covering payload forgets; a touching one keeps *)
+  spec_step (1, 1)%N 5 (Some e) (Learn (1, 1)%N 4 6 [(2%N, 1)] [ex_n2]) = Some (mkEntry 5 6 [(ex_n2, 1%N)] None) /\
+  spec_step (1, 1)%N 5 (Some e) (Learn (1, 2)%N 4 6 [] []) = Some e /\
+  spec_step (1, 1)%N 5 (Some e) (Learn (1, 1)%N 6 4 [] []) = Some e /\
+  spec_step (1, 1)%N 5 (Some e) (Learn (1, 1)%N 7 20 [] []) = None /\
+  spec_step (1, 1)%N 5 (Some e) (Learn (1, 1)%N 10 20 [] []) = Some e /\
+  spec_step (1, 1)%N 5 None (Learn (1, 1)%N 10 20 [] []) = None /\
+  ranges_overlap 8 20 1 10 = true /\ ranges_overlap 11 20 1 10 = false /\ ranges_overlap 1 10 11 20 = false.
+Proof. repeat split; vm_compute; reflexivity. Qed.
+Example C15_ex_spec_maintain :
+  let e := mkEntry 1 10 [(ex_n1, 0%N); (ex_n2, 1%N)] None in
+  let p := mkEntry 1 10 [(ex_n1, 0%N)] (Some [(1%N, 0%N); (3%N, 1%N)]) in
+  spec_maintain ex_schema [] [ex_n1; ex_n2] [] (1, 1)%N e = Some e /\
+  spec_maintain ex_schema [] [ex_n1; ex_n2] [] (1, 2)%N e = None /\                    (* table not in schema *)
+  spec_maintain [mkKs 1 false [1%N] []] [] [ex_n1; ex_n2] [] (1, 1)%N e = None /\      (* keyspace not tablet based *)
+  spec_maintain [] [] [ex_n1; ex_n2] [] (1, 1)%N e = None /\
+  spec_maintain [mkKs 1 true [] [1%N]] [] [ex_n1; ex_n2] [] (1, 1)%N e = Some e /\     (* a view *)
+  spec_maintain ex_schema [2%N] [ex_n1] [] (1, 1)%N e = None /\                        (* replica on a removed node *)
+  spec_maintain ex_schema [] [ex_n1'; ex_n2] [ex_n1'] (1, 1)%N e =
+    Some (mkEntry 1 10 [(ex_n1', 0%N); (ex_n2, 1%N)] None) /\                          (* recreated node swapped *)
+  spec_maintain ex_schema [] [ex_n1; ex_n2] [] (1, 1)%N p = None /\                    (* still unknown: dropped *)
+  spec_maintain ex_schema [] [ex_n1; mkNode 3 0 None] [] (1, 1)%N p =
+    Some (mkEntry 1 10 [(ex_n1, 0%N); (mkNode 3 0 None, 1%N)] None).                    (* resolved *)
+Proof. repeat split; vm_compute; reflexivity. Qed.
+Example C15_ex_restrict_dc :
+  restrict_dc 1 [(ex_n1, 0%N); (ex_n2, 1%N); (mkNode 3 0 None, 2%N); (ex_n1', 3%N)] = [(ex_n2, 1%N); (ex_n1', 3%N)] /\
+  restrict_dc 7 [(ex_n1, 0%N); (mkNode 3 0 None, 2%N)] = [] /\
+  spec_lookup_dc ex_hist (1, 1)%N 9 0 = Some [] /\ spec_lookup_dc ex_hist (1, 1)%N 5 0 = None.
+Proof. repeat split; vm_compute; reflexivity. Qed.
+Example C15_ex_split_at_rejects :
+  ~ split_at (fun x => x <? 5) [1; 2; 7; 9] 1 /\ ~ split_at (fun x => x <? 5) [1; 2; 7; 9] 3 /\
+  ~ split_at (fun x => x <? 5) [1; 7; 2] 1 /\ ~ split_at (fun x => x <? 5) [1] 2.
+Proof.
+  repeat split; intros (Hn & Hf & Hs); vm_compute in Hn, Hf, Hs; try discriminate; lia.
+Qed.
+Example C15_ex_covering_overlap :
+  covering_learn (1, 1)%N 5 (Learn (1, 1)%N 4 5 [] []) = true /\
+  covering_learn (1, 1)%N 5 (Learn (1, 1)%N 5 9 [] []) = false /\      (* left-open: 5 is not in (5, 9] *)
+  covering_learn (1, 1)%N 5 (Learn (1, 1)%N 9 4 [] []) = false /\
+  covering_learn (1, 1)%N 5 (Maintain [] [] [] []) = false /\
+  accepted_overlap (1, 1)%N 1 10 (Learn (1, 1)%N 9 20 [] []) = true /\
+  accepted_overlap (1, 1)%N 1 10 (Learn (1, 1)%N 10 20 [] []) = false /\
+  accepted_overlap (1, 1)%N 1 10 (Learn (2, 1)%N 0 20 [] []) = false.
+Proof. repeat split; vm_compute; reflexivity. Qed.
+Example C15_ex_refresh :
+  derive_removed [ex_n1; ex_n2] [ex_n1'] = [2%N] /\ derive_recreated [ex_n1; ex_n2] [ex_n1'; ex_n2] = [ex_n1'] /\
+  derive_recreated [ex_n1; ex_n2] [ex_n1; ex_n2; mkNode 3 0 None] = [] /\
+  op_i64b (Learn (1, 1)%N (2 ^ 63) 0 [] []) = false /\ op_i64b (Learn (1, 1)%N (- 2 ^ 63) (2 ^ 63 - 1) [] []) = true.
+Proof. repeat split; vm_compute; reflexivity. Qed.
+
 Print Assumptions C15_no_panic.
 Print Assumptions C15_inv.
 Print Assumptions C15_every_step.
